@@ -16,21 +16,21 @@ package main
 //@   init wantList := false
 //@   init wantStatus := false
 //@   site (ListOptions).ShouldListTasks#1 ghost wantList := result
-//@   site (ListOptions).ShouldListTasks#1 requires arg0 == listOptions                                          [C12]
-//@   site NewListOptions#1 requires arg0 == flags.List && arg1 == flags.ListAll                                 [C12]
+//@   site (ListOptions).ShouldListTasks#0 requires arg0 == listOptions                                          [C12]
+//@   site NewListOptions#0 requires arg0 == flags.List && arg1 == flags.ListAll                                 [C12]
 //@   site (*Executor).Status#0 ghost wantStatus := true
 //@   site (*Executor).Run#0 requires !wantList && !flags.Status                                                 [C12]
 //@   site args.Get#1 ghost posArgs := result.0
-//@   site filepathext.IsExtOnly#1 requires arg0 == posArgs[0]     -- the --init path is the first positional argument   [C19]
+//@   site filepathext.IsExtOnly#0 requires arg0 == posArgs[0]     -- the --init path is the first positional argument   [C19]
 // ".yml" / "dir/.yml" mean "Taskfile.yml" IN THE GIVEN DIRECTORY, and whatever was given is taken relative to
 // the working directory
-//@   site filepath.Dir#1 requires arg0 == posArgs[0]                                                            [C19]
+//@   site filepath.Dir#0 requires arg0 == posArgs[0]                                                            [C19]
 //@   site filepath.Dir#1 ghost initDir := result
-//@   site filepath.Ext#1 requires arg0 == posArgs[0]                                                            [C19]
+//@   site filepath.Ext#0 requires arg0 == posArgs[0]                                                            [C19]
 //@   site filepathext.SmartJoin#1 requires arg0 == initDir                                                      [C19]
 //@   site os.Getwd#1 ghost initWd := result.0
 //@   site filepathext.SmartJoin#2 requires arg0 == initWd                                                       [C19]
-//@   site InitTaskfile#1 requires len(posArgs) == 0 ==> arg0 == initWd                                          [C19]
+//@   site InitTaskfile#0 requires len(posArgs) == 0 ==> arg0 == initWd                                          [C19]
 //@   site (*Vars).Set#1 requires arg1 == "CLI_ARGS" && dyn(arg2.Value) == type(string)   -- one string, not a list  [C19]
 //@   site (*Vars).Set#1 requires arg2.Live == arg2.Value      -- and marked as a final value: it is data, not a template  [C19]
 
@@ -45,7 +45,7 @@ package main
 //@   site (*TaskRunError).TaskExitCode#1 ghost exitCodeWanted := result
 //@   init exitAsked := false
 //@   site (*TaskRunError).TaskExitCode#1 ghost exitAsked := true
-//@   site (*TaskRunError).TaskExitCode#1 requires flags.ExitCode && runErr != nil                                [C03]
+//@   site (*TaskRunError).TaskExitCode#0 requires flags.ExitCode && runErr != nil                                [C03]
 //@   site os.Exit#0 requires runErr != nil && dyn(runErr) == type(*errors.TaskRunError) && flags.ExitCode ==> exitAsked && arg0 == exitCodeWanted   [C03]
 //@   site os.Exit#0 requires exitAsked ==> arg0 == exitCodeWanted                                               [C03]
 //@   site os.Exit#0 requires (runErr == nil) == (arg0 == 0)                                                     [C03]
